@@ -740,6 +740,83 @@ fn c19_moves(tier: Tier, d: &mut Vec<Divergence>, n: &mut u64) {
     }
 }
 
+/// deviations from a valid spelling: every byte position of every valid move text replaced by each
+/// of the 256 byte values (byte parser), and every char position of the valid texts of every
+/// FromStr parser replaced by non-ASCII chars (a `char as u8` narrowing folds those onto ASCII)
+fn c19_substitutions(tier: Tier, d: &mut Vec<Divergence>, n: &mut u64) {
+    let texts: Vec<Vec<u8>> = (0..4096u32)
+        .flat_map(|i| {
+            let (a, b) = ((i / 64) as u8, (i % 64) as u8);
+            let lower = format!("{}{}", refchess::sq_name(a), refchess::sq_name(b));
+            vec![lower.clone().into_bytes(), lower.to_uppercase().into_bytes(), format!("{}-{}", refchess::sq_name(a), refchess::sq_name(b)).into_bytes()]
+        })
+        .collect();
+    let bad: Vec<Divergence> = texts
+        .par_iter()
+        .flat_map_iter(|t| {
+            let mut bad = vec![];
+            for i in 0..t.len() {
+                for v in 0..=255u8 {
+                    let mut s = t.clone();
+                    s[i] = v;
+                    if let Some(dv) = c19_move_case(&s) {
+                        bad.push(dv);
+                    }
+                }
+            }
+            bad
+        })
+        .collect();
+    *n += texts.iter().map(|t| t.len() as u64 * 256).sum::<u64>();
+    d.extend(bad.into_iter().take(20));
+    // non-ASCII chars: none may be accepted anywhere by any FromStr parser
+    let chars: Vec<char> = if tier == Tier::Thorough { (0x80u32..=0x10FFFF).filter_map(char::from_u32).collect() } else { (0x80u32..0x3000).chain(0xFF00..=0xFFFF).chain([0x10061, 0x10031, 0x1F431, 0x10FF61]).filter_map(char::from_u32).collect() };
+    let singles: Vec<String> = "abcdefghABCDEFGH12345678pnbrqkPNBRQK".chars().map(|c| c.to_string()).collect();
+    let squares: Vec<String> = ["a1", "h8", "e2", "E4", "H1", "a8"].iter().map(|s| s.to_string()).collect();
+    let moves: Vec<String> = ["e2e4", "e2-e4", "a1h8", "H8-A1", "a7a8", "b1-c3"].iter().map(|s| s.to_string()).collect();
+    let bad: Vec<Divergence> = chars
+        .par_iter()
+        .flat_map_iter(|&c| {
+            let mut bad = vec![];
+            let mut probe = |s: String| {
+                let ok = s.parse::<File>().is_err() && s.parse::<Rank>().is_err() && s.parse::<Piece>().is_err() && s.parse::<PromotionPiece>().is_err() && s.parse::<Pos>().is_err() && s.parse::<ChessMove>().is_err();
+                if !ok {
+                    bad.push(Divergence::new("fromstr-accepts-non-ascii-text", format!("{s:?} (U+{:04X}) is accepted by a FromStr parser", c as u32)));
+                }
+            };
+            probe(c.to_string());
+            for t in singles.iter().chain(squares.iter()).chain(moves.iter()) {
+                let cs: Vec<char> = t.chars().collect();
+                for i in 0..cs.len() {
+                    let mut x = cs.clone();
+                    x[i] = c;
+                    probe(x.into_iter().collect());
+                }
+                // and inserted in front / behind
+                probe(format!("{c}{t}"));
+                probe(format!("{t}{c}"));
+            }
+            bad
+        })
+        .collect();
+    *n += chars.len() as u64 * (1 + singles.len() as u64 * 3 + squares.len() as u64 * 4 + 6 + 5 + 6 + 7 + 6 + 7 + 2 * 6);
+    d.extend(bad.into_iter().take(20));
+    // ASCII text around valid single values: signs, leading zeros, blanks (an integer grammar accepts them)
+    for t in singles.iter().chain(squares.iter()).chain(moves.iter()) {
+        for pre in ["+", "-", "0", "00", " ", "\t", "\n", "+0", "0x", "\0"] {
+            for s in [format!("{pre}{t}"), format!("{t}{pre}")] {
+                *n += 1;
+                let bytes = s.as_bytes();
+                let wm = want_move(bytes);
+                let ok = s.parse::<File>().is_err() && s.parse::<Rank>().is_err() && s.parse::<Piece>().is_err() && s.parse::<PromotionPiece>().is_err() && s.parse::<Pos>().is_err() && s.parse::<ChessMove>().ok().map(|m| (m.source as u8, m.dest as u8)) == wm;
+                if !ok {
+                    d.push(Divergence::new("fromstr-accepts-decorated-text", format!("{s:?}")));
+                }
+            }
+        }
+    }
+}
+
 // ---- enumerating iterators explored as state machines against a slice model
 
 #[derive(Clone, Copy, Debug)]
@@ -888,6 +965,7 @@ pub fn c19_all(tier: Tier) -> (u64, u64, Vec<Divergence>) {
     c19_values(&mut d, &mut n);
     c19_short_parsers(&mut d, &mut n);
     c19_moves(tier, &mut d, &mut n);
+    c19_substitutions(tier, &mut d, &mut n);
     let mut states = 0;
     states += explore_double_ended("Color::all", Color::all(), &[Color::White, Color::Black], &mut d, &mut n);
     states += explore_double_ended("Side::all", Side::all(), &[Side::King, Side::Queen], &mut d, &mut n);
@@ -917,7 +995,7 @@ pub fn run_c19(args: &Args) -> i32 {
         json!({
             "evaluations": n,
             "distinct_nontrivial": 64 + 8 + 8 + 4096 + states,
-            "rule": "index conversions on all 256 bytes; all 64 squares / 8 files / 8 ranks for composition, neighbours, flips, text round trips; File/Rank/Piece/PromotionPiece/Pos parsers on every byte string of length 0-2 (all 256 byte values) and length 3 over a 34-symbol alphabet; ChessMove parser on all strings of length 0-5 (thorough: 0-6) over the alphabet a-h A-H 1-8 - ` @ i I 0 9 space 0x80 0xe1 (34^5 = 45 435 424 five-byte strings); Display->parse for all 4096 non-promotion moves; enumerating iterators explored to closure as state machines (ops next, next_back, nth(k), nth_back(k) for k <= len+1 and usize::MAX and values around 2^8, 2^16, 2^32, 2^48, 2^63, size_hint, clone) against slice semantics; move strings assembled from square tokens, separator runs (up to ten dashes) and tails. Non-trivial = distinct values with a text form + iterator states.",
+            "rule": "index conversions on all 256 bytes; all 64 squares / 8 files / 8 ranks for composition, neighbours, flips, text round trips; File/Rank/Piece/PromotionPiece/Pos parsers on every byte string of length 0-2 (all 256 byte values) and length 3 over a 34-symbol alphabet; ChessMove parser on all strings of length 0-5 (thorough: 0-6) over the alphabet a-h A-H 1-8 - ` @ i I 0 9 space 0x80 0xe1 (34^5 = 45 435 424 five-byte strings); Display->parse for all 4096 non-promotion moves; enumerating iterators explored to closure as state machines (ops next, next_back, nth(k), nth_back(k) for k <= len+1 and usize::MAX and values around 2^8, 2^16, 2^32, 2^48, 2^63, size_hint, clone) against slice semantics; move strings assembled from square tokens, separator runs (up to ten dashes) and tails; every byte position of all 3*4096 valid move texts replaced by each of the 256 byte values; every char position of the valid texts of each FromStr parser replaced by (and prefixed / suffixed with) every non-ASCII char below U+3000 and in U+FF00-FFFF (thorough: every Unicode scalar value), plus sign / zero / blank decorations. Non-trivial = distinct values with a text form + iterator states.",
             "iterator_states": states,
             "exhaustive": true,
             "samples": [{"input": "e2-e4", "parsed": "e2e4"}, {"input_hex": "6532e134", "parsed": Value::Null}],
